@@ -123,6 +123,22 @@ def _counter_update(stmt, alias_of=None):
                 return 'inc', f, unparse(stmt.target.slice)
             if isinstance(stmt.op, ast.Sub):
                 return 'dec', f, unparse(stmt.target.slice)
+    # spelled out: self.F[k] = self.F[k] + 1 / self.F.get(k, 0) + 1 (a plain dict instead of a Counter)
+    if isinstance(stmt, ast.Assign) and len(stmt.targets) == 1 and isinstance(stmt.targets[0], ast.Subscript) \
+            and isinstance(stmt.value, ast.BinOp) and isinstance(stmt.value.op, (ast.Add, ast.Sub)) \
+            and isinstance(stmt.value.right, ast.Constant) and stmt.value.right.value == 1:
+        tgt = stmt.targets[0]
+        f = self_attr(tgt.value)
+        if f is None and alias_of is not None and isinstance(tgt.value, ast.Name):
+            f = alias_of(tgt.value.id)
+        key = unparse(tgt.slice)
+        left = stmt.value.left
+        same = unparse(left) == unparse(tgt) or (
+            isinstance(left, ast.Call) and isinstance(left.func, ast.Attribute) and left.func.attr == 'get'
+            and unparse(left.func.value) == unparse(tgt.value) and left.args and unparse(left.args[0]) == key
+            and (len(left.args) == 1 or (isinstance(left.args[1], ast.Constant) and left.args[1].value == 0)))
+        if f and same:
+            return ('inc' if isinstance(stmt.value.op, ast.Add) else 'dec'), f, key
     return None
 
 
@@ -197,6 +213,10 @@ class LockFlow:
             if isinstance(n, (ast.Raise, ast.Assert, ast.Yield, ast.YieldFrom, ast.Await)):
                 return True
             if isinstance(n, ast.Call) and not _lock_call(n, self.locks):
+                # dict look-ups on the bookkeeping fields (self.F.get(k, 0), .keys(), .items()) are item accesses
+                if isinstance(n.func, ast.Attribute) and n.func.attr in ('get', 'keys', 'values', 'items') \
+                        and self_attr(n.func.value) in self.fields:
+                    continue
                 return True
         return False
 
@@ -293,14 +313,16 @@ class LockFlow:
                 return next(iter(fs)) if len(fs) == 1 else None
             # removal of a holder entry (read by wait predicates) / notification of the waiters
             if isinstance(a, ast.Delete):
-                rem = set()
+                rem, gone = set(), set()
                 for t in a.targets:
                     if isinstance(t, ast.Subscript):
                         fld = self_attr(t.value) or (alias_of(t.value.id) if isinstance(t.value, ast.Name) else None)
                         if fld:
                             rem.add(('removed', fld))
+                            gone.add(('inc', fld, unparse(t.slice)))
                 if rem:
-                    return [(None, st | rem)]
+                    # deleting the entry of a key also ends the hold counted there (`if c[k] > 1: c[k] -= 1 else: del c[k]`)
+                    return [(None, (st - gone) | rem)]
             if isinstance(a, ast.Expr) and isinstance(a.value, ast.Call) and isinstance(a.value.func, ast.Attribute):
                 fn_ = a.value.func
                 if fn_.attr in ('pop', 'clear', 'popitem'):
